@@ -21,12 +21,21 @@ N == Len(Rec)
 VARIABLES l, run, viol, drift
 tvars == <<l, run, viol, drift, vars>>
 
-E(x) == Mk(x.k, x.a, x.s, x.f, x.old, x.wf)
-Cache(seq) == {E(seq[i]) : i \in DOMAIN seq}
-Known(e) == e.ev \in {"New", "Add", "AddBad", "Upd", "Rem", "Cleanup", "Flush", "Write", "Craft",
+\* An entry's wf is decided by the driver on IDENTITY: the text has the dialable shape, is the canonical text of the
+\* (peer, address) pair that was presented, and (raw file, load) is stored under the peer id it carries.
+\* An address last seen in the FUTURE (fut): the statement does not say whether it is expired.  Keeping it and
+\* dropping it are both accepted: on the saved side of a comparison it counts as expired (dropping it is explained),
+\* on the exposed side (what a store, a load or a written file shows) it counts as fresh (keeping it is clean).
+E(x)  == Mk(x.k, x.a, x.s, x.f, x.old, x.wf)
+ES(x) == Mk(x.k, x.a, x.s, x.f, x.old \/ x.fut, x.wf)
+Cache(seq)  == {E(seq[i]) : i \in DOMAIN seq}
+CacheS(seq) == {ES(seq[i]) : i \in DOMAIN seq}
+Known(e) == e.ev \in {"New", "Add", "AddBad", "AddPlain", "Upd", "Rem", "Cleanup", "Flush", "Write", "Craft",
                       "Corrupt", "SetFile", "Delete", "ExpireFile", "Stress", "Torn"}
 EnvEv == {"Corrupt", "SetFile", "Delete", "ExpireFile"}
-StoreEv == {"New", "Add", "AddBad", "Upd", "Rem", "Cleanup", "Flush", "Write"}
+StoreEv == {"New", "Add", "AddBad", "AddPlain", "Upd", "Rem", "Cleanup", "Flush", "Write"}
+\* the store was told not to write the cache file (PeersArgs::local, disable_cache_writing)
+Disabled(e) == e.ev = "Flush" /\ e.dis
 
 MaxReported == 300
 When(cond, name) == IF cond THEN {name} ELSE {}
@@ -36,11 +45,14 @@ Mem0(e) == IF e.run = run THEN mem ELSE <<>>
 By0(e) == IF e.run = run THEN fileBy ELSE "none"
 MemOf(e) == IF e.p \in DOMAIN Mem0(e) THEN Mem0(e)[e.p] ELSE {}
 ByAfter(e) == IF e.ev \in EnvEv THEN "env"
-              ELSE IF e.ev \in {"Flush", "Write"} /\ e.res = "Ok" THEN "store"
+              ELSE IF e.ev = "Flush" /\ e.res = "Ok" /\ ~e.dis THEN "store"
+              ELSE IF e.ev = "Write" /\ e.res = "Ok" THEN "store"
+              \* the first node of a network writes an empty cache when its store is made
+              ELSE IF e.ev = "New" /\ e.res = "Ok" /\ e.first THEN "store"
               ELSE IF e.ev \in {"Stress", "Torn"} THEN "store"
               ELSE By0(e)
 
-RawFile(r) == IF r.kind = "cache" THEN FCache(Cache(r.c)) ELSE [kind |-> r.kind]
+RawFile(r) == IF r.kind = "cache" THEN FCache(CacheS(r.c)) ELSE [kind |-> r.kind]
 LoadData(d) == IF d.kind = "data" THEN Data(Cache(d.c)) ELSE NoData
 Outcome(d) == IF d.kind = "panic" THEN "Panic" ELSE "Ok"
 
@@ -53,9 +65,11 @@ LoadClauses(e) ==
     \cup (IF f.kind # "cache" \/ e.ev \in {"Stress", "Torn"} THEN {}
           ELSE IF d.kind # "data" THEN {"C18_SaveLoad"}
           ELSE      When(~C18_SaveLoad(f.c, d.c, maxP, maxA), "C18_SaveLoad")
-               \cup When(~C18_Bounds(d.c, e.load.np, maxP, maxA), "C18_Bounds")
+               \cup When(~C18_Bounds(d.c, e.load.np, maxP, maxA) \/ e.load.mp > maxA, "C18_Bounds")
                \cup When(~C18_CleanAfterCleanup(d.c), "C18_CleanAfterCleanup")
-               \cup When(C18_WellFormed(f.c) /\ ~C18_WellFormed(d.c), "C18_WellFormed"))
+               \* what a load exposes is well formed whoever wrote the file: every address dialable, carrying a peer id,
+               \* and kept under that peer (the map key)
+               \cup When(~C18_WellFormed(d.c) \/ e.load.key_mismatch, "C18_WellFormed"))
 
 OpClauses(e) ==
     LET m == MemOf(e)
@@ -64,31 +78,51 @@ OpClauses(e) ==
     THEN IF e.ev \in {"Flush", "Write"}
          THEN (IF e.rawpre.kind = "cache" THEN {"C18_SaveLoad"} ELSE {"C18_CorruptIgnored"})
          ELSE {"C18_Bounds"}
-    ELSE IF e.ev \in {"Add", "AddBad", "Upd", "Rem", "Cleanup", "New"} THEN
+    ELSE IF e.ev \in {"Add", "AddBad", "AddPlain", "Upd", "Rem", "Cleanup", "New"} THEN
          LET o == Cache(e.obs.mem)
-             cleaned == e.ev = "Cleanup" \/ (e.ev = "Add" /\ ~Has(m, e.k, e.a)) IN
+             cleaned == e.ev = "Cleanup" \/ (e.ev = "Add" /\ ~Has(m, e.k, e.a))
+             \* "after any sequence of additions, status updates, ... and clean-ups ... holds at most": the bounds hold after
+             \* EVERY such call, also an addition to a known peer, as long as the memory was within bounds before it
+             \* (a flush that failed after merging may leave it beyond them: the merge is "before clean-up")
+             within == C18_Bounds(m, Cardinality(PeersOf(m)), maxP, maxA) IN
               When(~C18_WellFormed(o), "C18_WellFormed")
-         \cup When(cleaned /\ ~C18_Bounds(o, e.obs.np, maxP, maxA), "C18_Bounds")
+         \cup When((cleaned \/ within) /\ (~C18_Bounds(o, e.obs.np, maxP, maxA) \/ e.obs.mp > maxA), "C18_Bounds")
          \cup When(cleaned /\ ~C18_CleanAfterCleanup(o), "C18_CleanAfterCleanup")
     \* a flush that met a corrupt or foreign file behaves as if the file were absent: it succeeds and replaces it
-    ELSE IF e.ev = "Flush" /\ e.rawpre.kind = "corrupt" /\ (e.res # "Ok" \/ e.raw.kind # "cache") THEN {"C18_CorruptIgnored"}
+    ELSE IF e.ev = "Flush" /\ ~e.dis /\ e.rawpre.kind = "corrupt" /\ (e.res # "Ok" \/ e.raw.kind # "cache") THEN {"C18_CorruptIgnored"}
     ELSE IF e.ev = "Craft" THEN
-         When(e.res = "Panic" \/ (e.res = "Ok" /\ ~e.wf), "C18_WellFormed")
+         \* a dialable presentation (e.ok) is crafted into THE canonical address of its peer: same transport (quic-v1 / ws
+         \* kept), same port, the peer id of the dialable part; anything else that is returned still has the shape
+         When(e.res = "Panic" \/ (e.res = "Ok" /\ ~e.wf) \/ (e.ok /\ (e.res # "Ok" \/ ~e.same)), "C18_WellFormed")
+    \* a store that must not write: nothing it knew is lost by the call
+    ELSE IF Disabled(e) THEN
+         When(e.res = "Ok" /\ ~C18_MergeMonotone(m, {}, Cache(e.obs.mem)), "C18_MergeMonotone")
+    \* a flush that FAILED (the file could not be written): what the store knew is still in its memory or in the file
+    ELSE IF e.ev = "Flush" /\ e.res = "Err" THEN
+         LET o == Cache(e.obs.mem)
+             f == IF e.raw.kind = "cache" THEN Cache(e.raw.c) ELSE {} IN
+              When(~e.x /\ ~C18_MergeMonotone(m, {}, o \cup f), "C18_MergeMonotone")
+         \cup When(e.x /\ ~Explained(m, o \cup f, maxP, maxA), "C18_MergeMonotone")
+    \* "saving then loading returns the same peers and addresses": a flush that reports success left a cache in THE file
+    \* (the one PeersArgs::bootstrap_cache_dir / the configuration name)
+    ELSE IF e.ev = "Flush" /\ e.res = "Ok" /\ e.raw.kind # "cache" THEN {"C18_SaveLoad"}
     ELSE IF e.ev = "Flush" /\ e.res = "Ok" /\ e.raw.kind = "cache" THEN
          \* the on-disk side of the merge is whatever a load of the file as it stood (rawpre) may return:
          \* the flush loads the file itself, and which peers a load keeps of an over-full file is not fixed
          LET f == Cache(e.raw.c)
-             pre == IF e.rawpre.kind = "cache" THEN Cache(e.rawpre.c) ELSE {}
+             pre == IF e.rawpre.kind = "cache" THEN CacheS(e.rawpre.c) ELSE {}
              sides == CleanupResults(pre, maxP, maxA) IN
               When(~e.x /\ ~\E ld \in sides : C18_MergeMonotone(m, ld, f), "C18_MergeMonotone")
          \cup When(e.x /\ ~\E ld \in sides : Explained(Merge(m, ld), f, maxP, maxA), "C18_MergeMonotone")
-         \cup When(e.x /\ ~C18_Bounds(f, e.raw.np, maxP, maxA), "C18_Bounds")
+         \cup When(e.x /\ (~C18_Bounds(f, e.raw.np, maxP, maxA) \/ e.raw.mp > maxA), "C18_Bounds")
          \cup When(e.x /\ ~C18_CleanAfterCleanup(f), "C18_CleanAfterCleanup")
          \cup When(C18_WellFormed(pre) /\ C18_WellFormed(m) /\ ~C18_WellFormed(f), "C18_WellFormed")
     ELSE IF e.ev = "Write" /\ e.res = "Ok" /\ e.raw.kind = "cache" THEN
          When(KeysOf(Cache(e.raw.c)) # KeysOf(m), "C18_SaveLoad")
     ELSE IF e.ev = "Stress" THEN
          When(e.parse_err > 0 \/ e.panics > 0 \/ e.io_err > 0 \/ e.child_panics > 0, "C18_FileAlwaysLoadable")
+    \* the writer that died in the middle of a write: what it knew is in its memory or in the file
+    ELSE IF e.ev = "Torn" THEN When(e.lost > 0, "C18_MergeMonotone")
     ELSE {}
 
 Falsified(e) == IF ~Known(e) THEN {"Malformed"} ELSE LoadClauses(e) \cup OpClauses(e)
@@ -101,11 +135,11 @@ Drifted(e) ==
     CASE e.ev = "Add" ->
             IF Has(m, e.k, e.a) THEN When(KeysOf(o) # KeysOf(m), "AddKnownChangedKeys")
             ELSE When(o \notin CleanupResults(m \cup {Mk(e.k, e.a, 1, 0, e.cfg.exp = 0, TRUE)}, maxP, maxA), "AddNewNotACleanupResult")
-      [] e.ev = "AddBad" -> When(o # m, "RejectedShapeChangedCache")
+      [] e.ev \in {"AddBad", "AddPlain"} -> When(o # m, "RejectedShapeChangedCache")
       [] e.ev = "Upd" -> When(KeysOf(o) # KeysOf(m), "UpdChangedKeys")
       [] e.ev = "Rem" -> When(o # Without(m, e.k, e.a), "RemOther")
       [] e.ev = "Cleanup" -> When(o \notin CleanupResults(m, maxP, maxA), "CleanupNotACleanupResult")
-      [] e.ev = "Flush" -> When(o # {}, "FlushKeptMemory")
+      [] e.ev = "Flush" -> IF e.dis THEN When(e.raw # e.rawpre, "DisabledStoreWrote") ELSE When(o # {}, "FlushKeptMemory")
       [] OTHER -> {}
 
 TraceInit == /\ l = 1 /\ run = 0 /\ viol = {} /\ drift = {}
